@@ -248,6 +248,8 @@ func scanSync(b []byte) (pods, ctrs []int, more bool, err error) {
 
 type recorder struct {
 	sync.Mutex
+	stallAt  int           // > 0: the reply to the stallAt-th SynchronizeRequest (if it says More) is held back for stallFor
+	stallFor time.Duration // ... which is longer than the request timeout: the runtime's call times out although the stub HAS collected the chunk
 	cutAfter int    // > 0: answer the (cutAfter+1)-th SynchronizeRequest with an RPC error (restart stream)
 	onChange func() // called (unlocked) after the record changed; pre-installed plugins flush to a file
 	nObjs    int
@@ -307,6 +309,7 @@ func (r *recorder) serverIcpt(ctx context.Context, unmarshal ttrpc.Unmarshaler, 
 	if !strings.HasSuffix(info.FullMethod, "/Synchronize") {
 		return method(ctx, unmarshal)
 	}
+	stall := false
 	wrapped := func(v interface{}) error {
 		if err := unmarshal(v); err != nil {
 			return err
@@ -315,6 +318,11 @@ func (r *recorder) serverIcpt(ctx context.Context, unmarshal ttrpc.Unmarshaler, 
 		if !ok {
 			return nil
 		}
+		defer func() {
+			r.Lock()
+			stall = r.stallAt > 0 && len(r.plan) == r.stallAt && q.More
+			r.Unlock()
+		}()
 		var pods, ctrs []int
 		for _, p := range q.Pods {
 			pods = append(pods, idxOf(p.GetId(), 'p'))
@@ -340,7 +348,11 @@ func (r *recorder) serverIcpt(ctx context.Context, unmarshal ttrpc.Unmarshaler, 
 		r.plan = append(r.plan, ChunkObs{Pods: toRuns(pods), Ctrs: toRuns(ctrs), More: q.More, Size: proto.Size(q)})
 		return nil
 	}
-	return method(ctx, wrapped)
+	res, err := method(ctx, wrapped)
+	if stall {
+		time.Sleep(r.stallFor)
+	}
+	return res, err
 }
 
 // mkUpdate is the update the handler returns for container #i: a function of the container
@@ -520,7 +532,7 @@ func runCase(in *In, dir string) *Obs {
 	}
 	obs.PodSizes, obs.CtrSizes = compress(ps), compress(cs)
 
-	rec := &recorder{nObjs: len(pods) + len(ctrs)}
+	rec := &recorder{nObjs: len(pods) + len(ctrs), stallAt: in.StallAt, stallFor: caseTimeout(in) + 800*time.Millisecond}
 	pl := &plugin{mode: in.Handler, updates: in.Updates, updPad: in.UpdPad, pods: pods, ctrs: ctrs}
 	obs.UpdSizes = updSizes(in, in.Updates)
 	var pimpl interface{} = syncPlugin{pl}
